@@ -129,6 +129,8 @@ def check_case(case, rec):
     names = [c[0] for c in cols]
     n = len(cols[0][2])
     d = V.frame(cols)
+    if case.get("grouped"):
+        d.group_by(*case["grouped"])  # a frame on which group_by was called earlier is a frame too (the mark stays on the object)
     before = V.frame_key(d)
     rec.state(before)
     tin = {name: V.cells(d[name]) for name in names}
@@ -139,6 +141,8 @@ def check_case(case, rec):
         rec.case((before, tuple(keys), tuple(dirs)), nontrivial)
         rec.trans()
         one = {"cols": cols, "keys": keys, "dirs": [list(dirs)]}
+        if case.get("grouped"):
+            one["grouped"] = case["grouped"]
         try:
             out = d.sort(**dict(zip(keys, dirs)))
         except Exception as e:
@@ -230,6 +234,10 @@ def run_shard(shard, rec):
             toks = list(toks)
             cols = [["k", kind, toks]] + payload_cols(len(toks))
             check_case({"cols": cols, "keys": ["k"], "dirs": [[1], [-1]]}, rec)
+            if 2 <= len(toks) <= 3:
+                # sort after group_by: by the group column, and by another column than the group column
+                check_case({"cols": cols, "keys": ["k"], "dirs": [[1], [-1]], "grouped": ["k"]}, rec)
+                check_case({"cols": cols, "keys": ["k"], "dirs": [[1], [-1]], "grouped": ["q"]}, rec)
     elif shard["part"] == "long":
         kind, length = shard["kind"], shard["length"]
         alpha = V.alphabet(kind, "key")
